@@ -1,0 +1,31 @@
+//! Verification hooks (cargo feature `verif`, off by default).
+//!
+//! Re-exports and constructors so that an external model-checking harness can call the real
+//! election / follow code with scripted peers. Nothing in here changes behaviour.
+
+pub use crate::config::verif_hooks::*;
+pub use crate::config::{Config, Peers};
+pub use crate::election::{ElectionOutcome, elect_leader};
+pub use crate::follower::follow;
+pub use crate::{HeartbeatRequest, PeerInfo, PeerMessage, Priority};
+
+use std::net::IpAddr;
+
+pub fn priority(value: i64) -> Priority {
+    Priority(value)
+}
+
+pub fn peer_info(node_id: &str, address: IpAddr, raft_port: u16, sync_port: u16) -> PeerInfo {
+    PeerInfo {
+        node_id: node_id.to_owned(),
+        address,
+        raft_port,
+        sync_port,
+        priority: None,
+        suicide_on_split_brain: true,
+    }
+}
+
+pub fn heartbeat_node_id(heartbeat: &HeartbeatRequest) -> &str {
+    &heartbeat.node_id
+}
